@@ -244,8 +244,19 @@ func c13Reply4(r c13Reply, si int, xid []byte, chaddr net.HardwareAddr, serial i
 		p.TransactionID[0] ^= 0x5a
 	}
 	p.ClientHWAddr = append(net.HardwareAddr{}, chaddr...)
-	if r.HW == 1 {
+	switch r.HW {
+	case 1:
 		p.ClientHWAddr = net.HardwareAddr{2, 0, 0, 0, 0, 9}
+	case 2: // addresses related to the client's own, none of them the client's: a leading part of it, …
+		p.ClientHWAddr = append(net.HardwareAddr{}, chaddr[:min(len(chaddr), 5)]...)
+	case 3:
+		p.ClientHWAddr = append(net.HardwareAddr{}, chaddr[:min(len(chaddr), 1)]...)
+	case 4: // … the address followed by zero octets, …
+		p.ClientHWAddr = append(append(net.HardwareAddr{}, chaddr...), 0, 0)
+	case 5: // … padded to the whole 16-octet field, …
+		p.ClientHWAddr = append(append(net.HardwareAddr{}, chaddr...), make([]byte, 16-min(16, len(chaddr)))...)
+	case 6: // … and no address at all
+		p.ClientHWAddr = nil
 	}
 	p.YourIPAddr = net.IP(append([]byte{}, r.Yi...))
 	p.ServerIPAddr = serverIP(si)
@@ -755,7 +766,10 @@ func genC13() *rapid.Generator[c13Case] {
 				r.Xid = rapid.SampledFrom([]int{0, 0, 0, 0, 1}).Draw(t, "xid")
 				r.SID = rapid.SampledFrom([]int{0, 0, 0, 1, 2, 3}).Draw(t, "sid")
 				r.PadTo = rapid.SampledFrom([]int{0, 0, 0, 0, 0, 576, 1499, 1500}).Draw(t, "padto")
-				r.HW = rapid.SampledFrom([]int{0, 0, 0, 0, 1}).Draw(t, "hw")
+				r.HW = rapid.SampledFrom([]int{0, 0, 0, 0, 0, 0, 1, 2, 3, 4, 5, 6}).Draw(t, "hw")
+				if c.V6 && r.HW > 1 {
+					r.HW = 1 // (v6 re-uses this field as "carries no IA_NA")
+				}
 				r.Op = rapid.SampledFrom([]int{0, 0, 0, 0, 1}).Draw(t, "opc")
 				r.Bad = rapid.IntRange(0, 9).Draw(t, "bad") == 0
 				r.Dup = rapid.IntRange(0, 5).Draw(t, "dup") == 0
